@@ -1,4 +1,5 @@
 """C09 Wire format: decoder/encoder/len agree with the PROTOCOL.md layout table."""
+import json
 from an import (Tracer, Explorer, STOP, guard_at, strip, strip_casts, walk, fmt, callee, const_eval,
                 field_reads, leaves, N)
 from layout import consume_paths, s4_check, emit_paths, lin, lin_str, _ladd
@@ -376,6 +377,8 @@ def check_len(facts, rep, crate):
                 if t["k"] == "Call" and t["dest"]["l"] == 0 and not t["dest"].get("p"):
                     vals_.append(tr.call_node(bb, t))
             val = vals_[0] if len(vals_) == 1 else None
+            if val is None and vals_ and len(set(json.dumps(len_form(x), sort_keys=True) for x in vals_)) == 1:
+                val = vals_[0]      # several sub-arms (e.g. Push(Single) / Push(Vectored)) computing the same form
             if val is None:
                 rep.bad("C09.R4", "len/%s" % v, where, "no value computed for variant %s" % v)
                 continue
@@ -409,6 +412,11 @@ def len_form(node):
     if n.kind == "call" and n[6] == "len":
         fr = [x[2] for x in walk(n) if x.kind == "field"]
         # downcast-only (Push -> PushPayload::len): role "0"
+        role = fr[0] if fr else "?"
+        return {"c": 0, "len(%s)" % role: 1}
+    if n.kind == "call" and n[6] == "sum" and any(x.kind == "fnconst" and x[1].endswith("::len") for x in walk(n)):
+        # total length of a chunk list: `vec.iter().map(CowBytes::len).sum()`
+        fr = [x[2] for x in walk(n) if x.kind == "field"]
         role = fr[0] if fr else "?"
         return {"c": 0, "len(%s)" % role: 1}
     return None
